@@ -199,6 +199,25 @@ def generate(rng, prefix="", n_funcs=None, with_main=True, rich=True):
         rng.shuffle(terms)
         return " + ".join(terms[:4])
 
+    # ---- constants of structure / word type ------------------------------
+    sconsts = {}   # struct name -> constant name
+    wconsts = {}   # word name -> constant name
+    warrays = {}   # constant name -> word name
+    if rng.random() < 0.45:
+        sname = rng.choice(sorted(structs))
+        cname = "%sD0" % px
+        sconsts[sname] = cname
+        P.add(Item(cname, "const", "const %s: %s = %s;\n" % (cname, sname, struct_literal(sname))))
+    if words and rng.random() < 0.4:
+        wname = words[0]
+        cname = "%sQ0" % px
+        wconsts[wname] = cname
+        P.add(Item(cname, "const", "const %s: %s = %s;\n" % (cname, wname, word_literal(wname))))
+    if words and rng.random() < 0.3:
+        cname = "%sQA" % px
+        warrays[cname] = words[0]
+        P.add(Item(cname, "const", "const %s: [2]%s = [%s, %s];\n" % (cname, words[0], word_literal(words[0]), word_literal(words[0]))))
+
     # ---- functions -------------------------------------------------------
     if n_funcs is None:
         n_funcs = rng.randint(4, 11)
@@ -209,6 +228,8 @@ def generate(rng, prefix="", n_funcs=None, with_main=True, rich=True):
     if not words:
         kinds.remove("word")
     kinds += ["sizeof", "noop", "noop", "sizedptr", "grid", "shared_text"]
+    if warrays:
+        kinds.append("wordarr")
     if opaque:
         kinds.append("opaque")
     if small_words:
@@ -288,6 +309,11 @@ def generate(rng, prefix="", n_funcs=None, with_main=True, rich=True):
             lines = ["return: (%s) %% %d" % (expr, MOD)]
             body, head = _fn(name, "w: %s" % w, "i32", lines)
             it = P.add(Item(name, "fn", body, head, ("word_i", w)))
+        elif kind == "wordarr":
+            c = sorted(warrays)[0]
+            lines = ["var w = ws[1];", "return: (w.x * %d + |ws| as i32) %% %d" % (rng.randint(2, 5), MOD)]
+            body, head = _fn(name, "ws: []%s" % warrays[c], "i32", lines)
+            it = P.add(Item(name, "fn", body, head, ("wordarr", c)))
         elif kind == "sizeof":
             t = rng.choice(sorted(structs) + words + small_words)
             body, head = _fn(name, "v: i32", "i32", ["return: (v + |:%s| as i32) %% %d" % (t, MOD)])
@@ -438,6 +464,12 @@ def generate(rng, prefix="", n_funcs=None, with_main=True, rich=True):
                 lines.append("acc = (acc + %s(%s, |%s|, %d)) %% %d;" % (f, v, v, rng.randint(0, 50), MOD))
             elif sig[0] == "ptr_v":
                 lines.append("%s(&acc, %d);" % (f, rng.randint(0, 30)))
+            elif sig[0] == "wordarr":
+                lines.append("acc = (acc + %s(%s)) %% %d;" % (f, sig[1], MOD))
+            elif sig[0] == "sget" and sig[1] in sconsts and rng.random() < 0.5:
+                lines.append("acc = (acc + %s(%s)) %% %d;" % (f, sconsts[sig[1]], MOD))
+            elif sig[0] == "word_i" and sig[1] in wconsts and rng.random() < 0.5:
+                lines.append("acc = (acc + %s(%s)) %% %d;" % (f, wconsts[sig[1]], MOD))
             elif sig[0] == "sget":
                 if rng.random() < 0.3:
                     lines.append("acc = (acc + %s(%s)) %% %d;" % (f, struct_literal(sig[1]), MOD))
@@ -777,6 +809,13 @@ def twin_module(prog, rng):
                     [str((int(x) + 1 + i) % 10) for i, x in enumerate(m.group(1).split(", "))] + (["7"] if longer else [])), body)
             elif ": i32 = " in body:
                 body = re.sub(r"(= |\+ )(\d+);", lambda m: "%s%d;" % (m.group(1), int(m.group(2)) + 1), body)
+            # structure-typed constants: the twin's structures have one more
+            # member (a literal that omits a member makes penne emit invalid IR
+            # for the constant - a single-module defect outside C12)
+            body = re.sub(r"\b(\w*S\d+ \{ )", r"\1zz: 1, ", body)
+            if longer and not body.startswith("const %s: [" % it.name):
+                # array members of structure constants grow with their lengths
+                body = re.sub(r"\[([0-9, ]+)\]", lambda m: "[%s, 7]" % m.group(1), body)
         elif it.kind == "struct":
             body = body.replace("{\n", "{\n\tzz: u8,\n", 1)
         elif it.kind == "fn":
@@ -785,7 +824,7 @@ def twin_module(prog, rng):
     # keep the twin's globals alive: a pub (externally visible, never called) function reads them
     terms = []
     for it in prog.items:
-        if it.kind == "const" and it.body.startswith("const %s: [" % it.name):
+        if it.kind == "const" and re.match(r"const \w+: \[\w+\]i32 = ", it.body):
             terms.append("%s[i]" % it.name)     # run-time index: goes through the global
         elif it.kind == "const" and ": i32" in it.body:
             terms.append(it.name)
